@@ -10,12 +10,22 @@
 struct vstr { char* p; uint64_t len; union { char sso[16]; uint64_t cap; } u; };
 void* _Znwm(uint64_t n); void _ZdlPv(void* p);
 #define NPOS (~(uint64_t)0)
+#ifndef VLL_STRBLOCK
+#define VLL_STRBLOCK 64
+#endif
 static int is_local(struct vstr* s){ return s->p == s->u.sso; }
 static uint64_t capacity(struct vstr* s){ return is_local(s) ? 15 : s->u.cap; }
 
 void* STR(9_M_createERmm)(void* self, uint64_t* cap, uint64_t old){
   if (*cap > old && *cap < 2 * old) *cap = 2 * old;
+#ifdef __CPROVER__
+  /* CONCRETE block size (a symbolic allocation size makes CBMC's heap encoding explode): strings in the bounded
+   * harnesses stay far below it; a larger request is reported, never silently truncated */
+  __CPROVER_assert(*cap + 1 <= VLL_STRBLOCK, "check error: string longer than the modelled block (raise VLL_STRBLOCK)");
+  return _Znwm(VLL_STRBLOCK);
+#else
   return _Znwm(*cap + 1);
+#endif
 }
 static void set_len(struct vstr* s, uint64_t n){ s->len = n; s->p[n] = 0; }
 static void dispose(struct vstr* s){ if (!is_local(s)) _ZdlPv(s->p); }
